@@ -20,6 +20,7 @@ fn main() {
             let mut rec = Recorder::new(outdir);
             let mut rng = Rng::new(seed);
             let r = std::panic::catch_unwind(std::panic::AssertUnwindSafe(|| match engine {
+                "tables" => tables::compare(&mut rec),
                 "octet" => e1::octet(&mut rec, &mut rng, thorough),
                 "kernels" => e1::kernels(&mut rec, &mut rng, thorough, outdir),
                 "slab" => e1::slab(&mut rec, &mut rng, thorough),
